@@ -29,6 +29,15 @@ var Corpus = [][]string{
 	// two updates of one toxic that set different fields (bodies may arrive slowly): neither is lost
 	{`POST /proxies h {"name":"p1","listen":"127.0.0.1:$A","upstream":"u:1"}`, `POST /proxies/p1/toxics h {"name":"t1","type":"latency","attributes":{"latency":1}}`, "||",
 		`POST /proxies/p1/toxics/t1 h {"attributes":{"latency":100}}`, `POST /proxies/p1/toxics/t1 h {"attributes":{"jitter":50}}`, `POST /proxies/p1/toxics/t1 h {"toxicity":0.25}`},
+	// a toxic add (its body may arrive slowly) while clients connect and the proxy is deleted or
+	// disabled: no combination of requests and connection churn may deadlock the handlers
+	// (the upstream accepts: the clients' connections get as far as their links)
+	{`POST /proxies h {"name":"p1","listen":"127.0.0.1:$A","upstream":"127.0.0.1:$C"}`, "||",
+		`POST /proxies/p1/toxics h {"name":"t1","type":"latency","attributes":{"latency":1}}`, `DELETE /proxies/p1 h -`},
+	{`POST /proxies h {"name":"p1","listen":"127.0.0.1:$A","upstream":"127.0.0.1:$C"}`, "||",
+		`POST /proxies/p1/toxics h {"name":"t1","type":"latency","attributes":{"latency":1}}`, `POST /proxies/p1 h {"enabled":false}`},
+	{`POST /proxies h {"name":"p1","listen":"127.0.0.1:$A","upstream":"127.0.0.1:$C"}`, `POST /proxies/p1/toxics h {"name":"t1","type":"latency","attributes":{"latency":1}}`, "||",
+		`POST /proxies/p1/toxics/t1 h {"attributes":{"latency":2}}`, `DELETE /proxies/p1/toxics/t1 h -`, `POST /proxies/p1 h {"upstream":"u:2"}`, `POST /reset h -`},
 	// a toxic add racing the removal of the same name, and two adds of one name
 	{`POST /proxies h {"name":"p1","listen":"127.0.0.1:$A","upstream":"u:1"}`, `POST /proxies/p1/toxics h {"name":"t1","type":"latency","attributes":{"latency":1}}`, "||",
 		`DELETE /proxies/p1/toxics/t1 h -`, `POST /proxies/p1/toxics h {"name":"t1","type":"noop","attributes":{}}`, `POST /proxies/p1/toxics h {"name":"t1","type":"timeout","attributes":{}}`},
@@ -43,7 +52,10 @@ func Episode(r *rng.R) []string {
 		if r.Chance(1, 4) {
 			en = `,"enabled":false`
 		}
-		return fmt.Sprintf(`POST /proxies h {"name":%q,"listen":"127.0.0.1:%s","upstream":"u:1"%s}`, n, port(), en)
+		// (half of the proxies have an upstream that accepts, so that the clients connecting meanwhile
+		// get as far as their links)
+		up := r.PickS("u:1", "127.0.0.1:$C")
+		return fmt.Sprintf(`POST /proxies h {"name":%q,"listen":"127.0.0.1:%s","upstream":%q%s}`, n, port(), up, en)
 	}
 	// prefix
 	if r.Chance(4, 5) {
@@ -112,6 +124,9 @@ func Sweep(e *Engine, tier string, seed uint64, res *report.Result) {
 		}
 	}
 	for _, c := range Corpus {
+		if e.Wedged {
+			return
+		}
 		e.Trials *= 4
 		f := e.Run(c, res)
 		e.Trials /= 4
@@ -125,6 +140,9 @@ func Sweep(e *Engine, tier string, seed uint64, res *report.Result) {
 		n = 3000
 	}
 	for i := 0; i < n; i++ {
+		if e.Wedged {
+			return
+		}
 		ops := Episode(r)
 		if f := e.Run(ops, res); f != nil {
 			report1(ops, f)
